@@ -280,6 +280,52 @@ def biv_cases(draw):
 
 
 @st.composite
+def structured_biv_cases(draw):
+    """Longer patterns (2-5 points) with structured adjacency sets - anchors at both ends of the
+    positions and / or the values, exactly the inner columns (consecutive patterns), full sets -
+    and a target grown from the pattern by adding points only in cells the requirements leave
+    unshaded, so that the planted occurrence survives (occurrences exist although anchors are
+    demanding)."""
+    k = draw(st.integers(2, 5))
+    p = list(draw(gen.perm_of(k)))
+
+    def req():
+        mode = draw(st.sampled_from(["none", "ends", "ends", "one_end", "inner", "random", "full"]))
+        if mode == "none":
+            return []
+        if mode == "ends":
+            return sorted({0, k} | draw(st.sets(st.integers(0, k), max_size=1)))
+        if mode == "one_end":
+            return sorted({draw(st.sampled_from([0, k]))} | draw(st.sets(st.integers(0, k), max_size=2)))
+        if mode == "inner":
+            return list(range(1, k))
+        if mode == "full":
+            return list(range(k + 1))
+        return sorted(draw(st.sets(st.integers(0, k), max_size=k + 1)))
+
+    idx, val = req(), req()
+    cols = [x for x in range(k + 1) if x not in idx]
+    rows = [y for y in range(k + 1) if y not in val]
+    pts = {(64 * i, 64 * v) for i, v in enumerate(p)}
+    if cols and rows:
+        for _ in range(draw(st.integers(0, 5))):
+            x, y = draw(st.sampled_from(cols)), draw(st.sampled_from(rows))
+            fx = 64 * (x - 1) + draw(st.integers(1, 63))
+            fy = 64 * (y - 1) + draw(st.integers(1, 63))
+            if all(fx != a and fy != b for a, b in pts):
+                pts.add((fx, fy))
+    order = sorted(pts)
+    ys = sorted(b for _, b in order)
+    t = [ys.index(b) for _, b in order]
+    if draw(st.integers(0, 5)) == 0:
+        # near miss: one more point anywhere (may land in a shaded cell)
+        i, v = draw(st.integers(0, len(t))), draw(st.integers(0, len(t)))
+        t = [w + 1 if w >= v else w for w in t]
+        t.insert(i, v)
+    return {"p": p, "idx": idx, "val": val, "t": t}
+
+
+@st.composite
 def json_patterns(draw, max_len=3):
     kind = draw(st.sampled_from(["perm", "perm", "mesh", "biv", "vin", "cov"]))
     if kind == "perm":
@@ -331,6 +377,7 @@ def shard_generated(acc, shard, nshards, n_mesh, n_biv, n_mixed):
     engine.hyp_run(acc, "lazy", check_lazy, lazy_cases(), n_mixed, shard)
     engine.hyp_run(acc, "mesh", check_mesh, mesh_cases(), n_mesh, shard)
     engine.hyp_run(acc, "biv", check_biv, biv_cases(), n_biv, shard)
+    engine.hyp_run(acc, "biv", check_biv, structured_biv_cases(), n_biv, shard)
     engine.hyp_run(acc, "mixed", check_mixed, mixed_cases(), n_mixed, shard)
 
 
